@@ -399,7 +399,8 @@ PROPS = {
         'replay': 'c18.py',
         'functions': ['treadmill.trace._zk:cleanup', 'treadmill.trace._zk:upload_batch', 'treadmill.trace.app.zk:cleanup_trace', 'treadmill.trace.app.zk:cleanup_finished',
                       'treadmill.trace._zk:download_batch', 'treadmill.trace.app.zk:cleanup_trace_history',
-                      'treadmill.trace.app.zk:cleanup_finished_history'],
+                      'treadmill.trace.app.zk:cleanup_finished_history',
+                      'treadmill.trace.server.zk:cleanup_server_trace', 'treadmill.trace.server.zk:cleanup_server_trace_history'],
         'extra': [('bounded:trace-archiving-histories',
                    bounded_replay('c18.py', 'C18', 'cleanup_trace/cleanup_finished/_zk.cleanup histories', 150, 6000))],
         'assumptions': [
@@ -435,8 +436,11 @@ PROPS = {
             'its last-modified time is older; nothing else changes except new snapshot nodes (nothing_else / only_selected)',
             'pruning (_zk.cleanup; cleanup_trace_history / cleanup_finished_history are one-line callers): exactly the '
             'max_count greatest names survive unchanged; "newest" = greatest name (sequence numbers are zero padded - assumed)',
-            'prune_trace_evictions / prune_trace_service_events (not named by the statement) and the server-trace twin '
-            'treadmill.trace.server.zk are not under contract',
+            'the server-trace twin (treadmill.trace.server.zk: cleanup_server_trace, cleanup_server_trace_history) is under '
+            'contract for the same losslessness / crash-point clauses (it has no expiry: the oldest batch_size events are '
+            'moved; heapq.merge is a dependency contract of which only the length is used - the clauses hold for whatever '
+            'rows are handed to upload_batch); prune_trace_evictions / prune_trace_service_events (not named by the '
+            'statement) are not under contract',
             'BOUNDED stand-in (labelled bounded, never counted as proved): replay/c18.py runs random histories of the real '
             'functions on an in-memory ZooKeeper with real sqlite snapshots, cutting each run at a random write (crash / '
             'failed write), and evaluates the statement on the stored tree',
